@@ -139,8 +139,29 @@ SRC_OK = 'import m1\nif m1:\n    v = m1.x1\nelse:\n    v = m1.K1()\nv\nundefined
 SRC_BAD = 'def f(:\n'
 
 
+ROOT2 = None
+
+
+def second_root():
+    """a second project directory whose m1.py differs from genproject/m1.py (reconfiguration must not keep the old one)"""
+    global ROOT2
+    if ROOT2 is None or not os.path.exists(ROOT2):
+        ROOT2 = tempfile.mkdtemp(prefix='c15_root2_')
+        with open(os.path.join(ROOT2, 'm1.py'), 'w') as f:
+            f.write('\n\nonly_in_root2 = 1\n\n\ndef fn1():\n    return 2\n')
+    return ROOT2
+
+
 def alphabet(root):
     f = os.path.join(root, 'x.py')
+    return alphabet0(root, f) + [
+        ('configure', ({'sources': [second_root()]},)),
+        ('assist', ('import m1\nm1.', (2, 3), f)),
+        ('location', ('from m1 import fn1\nfn1\n', (2, 3), f)),
+    ]
+
+
+def alphabet0(root, f):
     return [
         ('configure', ({'sources': [root]},)),
         ('configure', ({'sources': [root], 'dyn_modules': ['json']},)),
